@@ -282,6 +282,27 @@ pub fn check_fragment(ctx: &Ctx, frag: &str, cat: &str) -> Result<(), Fail> {
     if bare.is_some() {
         ctx.class("has-bare-spelling");
     }
+    // invisible groups built as syntax-tree nodes (what `macro_rules!` forwarding of `$e:expr` / `$l:literal`
+    // delivers in any position; syn's parser itself only keeps the group in some positions), one and two
+    // levels deep, around the bare and around the quoted spelling
+    let wrap = |m: &syn::Meta, levels: usize| -> syn::Meta {
+        use syn::spanned::Spanned;
+        match m {
+            syn::Meta::NameValue(nv) => {
+                let mut v = nv.value.clone();
+                for _ in 0..levels {
+                    let sp = v.span();
+                    v = syn::Expr::Group(syn::ExprGroup { attrs: vec![], group_token: syn::token::Group { span: sp }, expr: Box::new(v) });
+                }
+                syn::Meta::NameValue(syn::MetaNameValue { path: nv.path.clone(), eq_token: nv.eq_token, value: v })
+            }
+            _ => unreachable!(),
+        }
+    };
+    let g1 = bare.as_ref().map(|b| wrap(b, 1));
+    let g2 = bare.as_ref().map(|b| wrap(b, 2));
+    let gq1 = Some(wrap(&quoted, 1));
+    let gq2 = Some(wrap(&quoted, 2));
     for (name, conv, direct, bare_ok) in targets() {
         ctx.eval();
         let want_q = direct(frag);
@@ -296,7 +317,7 @@ pub fn check_fragment(ctx: &Ctx, frag: &str, cat: &str) -> Result<(), Fail> {
             (Err(e), Some(w)) => fail!(format!("c13:quoted-rejected:{}", name), "{} failed with `{}` although the contents parse as `{}`", whatq, e, w),
             (Err(e), None) => check_err(e, &quoted, &whatq)?,
         }
-        for (label, m) in [("bare", &bare), ("grouped", &grouped)] {
+        for (label, m) in [("bare", &bare), ("grouped", &grouped), ("grouped", &g1), ("grouped", &g2), ("grouped", &gq1), ("grouped", &gq2)] {
             let m = match m {
                 Some(m) => m,
                 None => continue,
